@@ -500,6 +500,21 @@ def make_default_case(rng):
     # padding values of the description still have exactly the right length (shorter ones are zero-padded by the real
     # writer, by documented design; the model wants the exact length)
     omit(rng, g, stmts, ctx, "", table, same=positional(stmts))
+    if rng.random() < 0.2:
+        # ... and a value nobody reads, somewhere in the tree: defaults or not, that must still be refused
+        dicts = []
+
+        def walk(d):
+            dicts.append(d)
+            for v in d.values():
+                if v[0] == "d":
+                    walk(v[1])
+                elif v[0] == "l":
+                    for w in v[1]:
+                        if w[0] == "d":
+                            walk(w[1])
+        walk(ctx)
+        rng.choice(dicts)["zz_unused"] = ("i", rng.randrange(0, 9))
     return stmts, ctx, table
 
 
@@ -523,6 +538,36 @@ def real_serialise_defaults(stmts, ctx, table):
         return ("FAIL", type(e).__name__)
     nbits = bytepos * 8 + (7 - bitpos)
     return ("OK", bits_of_bytes(f.getvalue())[:nbits])
+
+
+def has_unused(d):
+    return "zz_unused" in d or any((v[0] == "d" and has_unused(v[1])) or (v[0] == "l" and any(w[0] == "d" and has_unused(w[1]) for w in v[1]))
+                                   for k, v in d.items() if k != "zz_unused")
+
+
+def violates_defaults(stmts, ctx, table):
+    """the property on the REAL Serialiser with a default table: a value nobody reads makes serialisation fail, defaults or
+    not; what is serialised reads back as a description that contains every supplied value unchanged"""
+    r = real_serialise_defaults(stmts, ctx, table)
+    if has_unused(ctx):
+        if r[0] == "OK":
+            return "a description holding a value that the program never reads was serialised (with a default table in use)"
+        return None
+    if r[0] != "OK":
+        return None
+    d = real_deserialise(stmts, r[1])
+    if d[0] != "OK" or d[2] != len(r[1]):
+        return "the bits written with defaults do not read back: %s" % (d[1] if d[0] != "OK" else "bits left over")
+
+    def kept(supplied, got):
+        if supplied[0] == "d":
+            return isinstance(got, dict) and all(k in got and kept(v, got[k]) for k, v in supplied[1].items() if v[0] not in ("pad", "al"))
+        if supplied[0] == "l":
+            return isinstance(got, list) and len(got) >= len(supplied[1]) and all(kept(v, g) for v, g in zip(supplied[1], got))
+        return canon(got) == canon(to_py(supplied))
+    if not kept(("d", ctx), d[1]):
+        return "a supplied value was replaced: supplied %s, read back %s" % (show_entries(ctx), canon(d[1]))
+    return None
 
 
 def show_table(table):
@@ -712,6 +757,12 @@ class Prop(object):
             why = violates(stmts, c)
             if why:
                 return {"program": show_stmts(stmts), "description": show_entries(c), "stmts": stmts, "ctx": c, "why": why}
+        for _ in range(ctx.n(3000, 30000)):
+            stmts, c, table = make_default_case(rng)
+            why = violates_defaults(stmts, c, table)
+            if why:
+                return {"program": show_stmts(stmts), "description": show_entries(c), "defaults": show_table(table), "stmts": stmts, "ctx": c,
+                        "table": [[k[0], k[1], list(v) if isinstance(v, tuple) else v] for k, v in table.items()], "why": why}
         return None
 
     def replay(self, ctx, path):
